@@ -25,6 +25,17 @@ check("C13", "proof",
       "Finite class universe; builtin operators on subclass instances return the base type (pyvc.models, cross-checked "
       "against CPython); time rows are a bounded stand-in; macro result classes are covered by C02/C09 contracts.",
       "contract-based deductive verification (class postcondition on every path) + exhaustive finite table", "DESIGN.md 4/C13")
+check("C18", "proof",
+      "logical_connector is executed symbolically for every node kind (not/or/and/list with 1-3 abstract children, "
+      "primitive) at an arbitrary nesting level under ghost precedence typing: every text carries (loosest top-level "
+      "operator class, boolean denotation); each &&/|| join generates the obligation that its operands bind at least as "
+      "tightly; clause translations and recursive results have an ARBITRARY class; the result's denotation must equal "
+      "the Custodian combinator. The typing rules and C7N_Rewriter.operand are validated against the library's own "
+      "parser for every connector x class x class combination.",
+      "str.join / f-string semantics over abstract texts (contracts/xlate_logic.py); children counts 1..3; operand() used "
+      "through its contract, validated on representative texts per class; plus an end-to-end bounded stand-in "
+      "(translate, parse, evaluate under all assignments).",
+      "contract-based deductive verification with ghost state (precedence typing) + exhaustive finite tables", "DESIGN.md 4/C18")
 _pending = "contracts for this property are not built yet in this revision (work in progress, see DESIGN.md section 8 build order)"
-for _p in ["C03","C04","C05","C06","C07","C08","C09","C10","C11","C12","C14","C15","C16","C17","C18","C19","C20"]:
+for _p in ["C03","C04","C05","C06","C07","C08","C09","C10","C11","C12","C14","C15","C16","C17","C19","C20"]:
     NA[_p] = _pending
